@@ -48,6 +48,7 @@ func (c *Ctx) specEnv(fr *Frame, cur, old *State, hdr *ssa.BasicBlock) *SpecEnv 
 	for i, p := range fr.fn.Params {
 		if i < len(fr.params) {
 			env.vars[p.Name()] = fr.params[i]
+			env.vars[fmt.Sprintf("param%d", i)] = fr.params[i] // positional name (robust to renaming)
 		}
 	}
 	for _, fv := range fr.fn.FreeVars {
@@ -894,7 +895,7 @@ func (c *Ctx) specCall(env *SpecEnv, x *ast.CallExpr, want types.Type) Val {
 				name := x.Args[0].(*ast.Ident).Name
 				g, ok := env.cur.ghost[name]
 				if !ok {
-					return env.fail("ghost counter " + name + " not tracked here")
+					g = "0" // a counter nobody has advanced yet
 				}
 				return Val{T: mathIntT, S: g}
 			case "fresh":
